@@ -367,6 +367,7 @@ func cmdCheck(prop, tier string) int {
 		opts := sym.HarnessOpts{Workers: 14, MapOrder: sp.MapOrder, CrossPath: sp.CrossPath}
 		if tier == "thorough" {
 			jb.eng.TimeoutMs = 60000
+			jb.eng.CrossCheck = 25
 		}
 		jb.eng.SamplePath = ld.Engine.SamplePath
 		os.Setenv("VERIF_TIER", tier)
@@ -511,6 +512,7 @@ func inventoriesFor(prop string) []string {
 func writeEvidence(prop, tier string, specs []*HarnessSpec, results []*sym.HarnessResult, st *sym.SolverStats, wall, loadWall time.Duration,
 	nviol int, inconcl []string, knownHits map[string]int, replayed int, replayNotes []string) {
 	states, transitions, obligations, discharged, cross := 0, 0, 0, 0, 0
+	secAgree, secUnknown := 0, 0
 	funcs := map[string]bool{}
 	stubs := map[string]bool{}
 	var samples []interface{}
@@ -523,6 +525,8 @@ func writeEvidence(prop, tier string, specs []*HarnessSpec, results []*sym.Harne
 		obligations += r.Obligations
 		discharged += r.Discharged
 		cross += r.CrossChecks
+		secAgree += r.CrossAgree
+		secUnknown += r.CrossUnknown
 		for f := range r.Funcs {
 			if strings.Contains(f, modPath) && !strings.Contains(f, "/pkg/zz_verif") && !strings.Contains(f, "/pkg/vrt") {
 				funcs[f] = true
@@ -569,6 +573,7 @@ func writeEvidence(prop, tier string, specs []*HarnessSpec, results []*sym.Harne
 			"bounds":                        bounds,
 			"harnesses":                     harnessRows,
 			"solver":                        map[string]interface{}{"primary": "z3 5.1.0 (z3-new -in, incremental push/pop)", "queries": st.Queries, "sat": st.Sat, "unsat": st.Unsat, "unknown": st.Unknown, "seconds": float64(st.Nanos) / 1e9, "restarts": st.Restarts},
+			"second_solver_cross_check":     map[string]interface{}{"solvers": "z3 4.8.12, cvc5 1.0 (thorough tier: a deterministic 1-in-25 sample of the solver-discharged obligations)", "agreeing_answers": secAgree, "unknown_or_timeout": secUnknown, "contradictions": "reported as inconclusive"},
 			"inconclusive":                  inconcl,
 			"known_findings_hit":            knownHits,
 			"replay_notes":                  replayNotes,
